@@ -126,6 +126,12 @@ example : ((runHistory cfgX (init cfgX) hX).2.map (fun e => (e.step, e.blk.id)))
     [(.new, "a2"), (.new, "a3"), (.undo, "a3"), (.new, "b3"), (.new, "b4"), (.undo, "b4"), (.undo, "b3"),
      (.new, "a3"), (.new, "a4"), (.new, "a5"), (.irreversible, "a2"), (.new, "a6"), (.irreversible, "a3"),
      (.stalled, "b3")] := by decide
+/-- the same run, New events only: (block, cursor LIB height, block height) — what `C04.history_cursor_lib_not_above_block`
+    says of every history, computed on this one (the redo of a3 after the undo, and a6 after the LIB moved to 2) -/
+example : (((runHistory cfgX (init cfgX) hX).2.filter (fun e => decide (e.step = .new))).map
+      (fun e => (e.blk.id, e.lib.num, e.blk.num))) =
+    [("a2", 1, 2), ("a3", 1, 3), ("b3", 1, 3), ("b4", 1, 4), ("a3", 1, 3), ("a4", 1, 4), ("a5", 1, 5), ("a6", 2, 6)] := by
+  decide
 
 end BstreamVerif.Forkable
 
